@@ -437,7 +437,7 @@ fn main() {
     forced.extend(msgs);
     // every battery runs on a worker thread with a deadline: a call that
     // never returns is recorded as {"hang": true}
-    let mut wd = Watchdog::new(make_proj_case, 30);
+    let mut wd = Watchdog::new(make_proj_case, 12);
     let mut probe_hangs = 0u64;
     for (idx, m) in forced.into_iter().enumerate() {
         if m.len() > cap && idx >= nforced {
